@@ -43,7 +43,7 @@ def compile_witness(path, cfg, repo, compiler='clang++'):
     return p.returncode, p.stdout
 
 
-def _mk(rid, props, fname, cfgs, doc):
+def _mk(rid, props, fname, cfgs, doc, flags_cfg=None):
     path = os.path.join(VERIF, 'witness', fname)
     @rule(rid, props, floor=1, configs=cfgs)
     def r(run, F, path=path):
@@ -51,9 +51,9 @@ def _mk(rid, props, fname, cfgs, doc):
         src = open(path).read()
         n_asserts = len(re.findall(r'\bstatic_assert\s*\(', src)) + sum(len(re.findall(r'\b%s\s*\(' % m, src)) for m in ())
         repo = extract.REPO
-        rc, out = compile_witness(path, F.config, repo)
+        rc, out = compile_witness(path, flags_cfg or F.config, repo)
         if run.tier == 'thorough':
-            rc2, out2 = compile_witness(path, F.config, repo, compiler='g++')
+            rc2, out2 = compile_witness(path, flags_cfg or F.config, repo, compiler='g++')
             out = out + '\n' + out2
         failed = []
         others = []
@@ -92,3 +92,8 @@ def _mk(rid, props, fname, cfgs, doc):
 
 for _w in WITNESSES:
     _mk(*_w)
+# the continuation-visitation part of the query witness only exists with UNIFEX_ENABLE_CONTINUATION_VISITATIONS: it is compiled
+# with the v20 flags in every tier (registered under the d20 configuration so that the quick tier runs it too)
+_mk('R-WITNESS-VISIT', ['C20'], 'queries.cpp', ['d20'],
+    'type-level witness, compiled with UNIFEX_ENABLE_CONTINUATION_VISITATIONS=1: from the receiver handed to a child at each of the 29 adaptor positions, a walk over the continuation chain with an rvalue visitor (what async_trace does) reaches the consumer\'s receiver - every receiver on the way customises visit_continuations for `Func&&`',
+    flags_cfg='v20')
